@@ -149,6 +149,7 @@ var seedExpectations = []seedExpect{
 	{"type-bytext", "C15", "type.bytext", "writeFunctionBody"},
 	{"template-close", "C08", "template.close", "typeSpec"},
 	{"type-error-dropped", "C11", "errflow.nilonly", "lowerLocalConst"},
+	{"sample-offset-dropped", "C09", "sample.offsetkept", "lowerTextureSampleCompare"},
 }
 
 // overlayFromPatch materialises the files a unified diff touches, patches
